@@ -155,8 +155,8 @@ def keysMounts (P : StoreOps σ) : List (Key × σ) → List Key → Except Stor
       | .error e => .error e
       | .ok more => .ok (p :: here ++ more)
 
-/-- `keys()` (fix D7a) -/
-def keys (P : StoreOps σ) (s : MtState σ) : Except StoreErr (List Key) :=
+/-- what `keys()` lists from the mounted stores and the default store (fix D7a) -/
+def keysListed (P : StoreOps σ) (s : MtState σ) : Except StoreErr (List Key) :=
   match keysMounts P s.2.reverse [] with
   | .error e => .error e
   | .ok m =>
@@ -166,6 +166,16 @@ def keys (P : StoreOps σ) (s : MtState σ) : Except StoreErr (List Key) :=
       match P.keys d with
       | .error e => .error e
       | .ok kd => .ok (m ++ kd.filter (fun k => !(s.2.any (fun e => e.1.isPrefixOf k))))
+
+/-- the proper non-empty ancestors of the mount prefixes, without repetition -/
+def mountParents (tbl : List (Key × σ)) : List Key :=
+  (tbl.flatMap (fun e => (List.range e.1.length).filterMap (fun i => if i = 0 then none else some (e.1.take i)))).eraseDups
+
+/-- `keys()` (fix D7f): the listed keys, then the parents of mount points that no store listed -/
+def keys (P : StoreOps σ) (s : MtState σ) : Except StoreErr (List Key) :=
+  match keysListed P s with
+  | .error e => .error e
+  | .ok l => .ok (l ++ (mountParents s.2).filter (fun a => !(l.contains a)))
 
 /-- the component a mount prefix below `k` contributes to `listdir(k)` -/
 def mountChild (k : Key) (p : Key) : Option Str :=
